@@ -448,7 +448,7 @@ def _fresh_reference(c, o, make, Xtr, ytr, Xte, reg=False):
 
 def _dtype_reference(c, o, make, Xte_unused=None, reg=False):
     """integer panels: a NEW object fitted on the SAME numbers stored as float64 (same seeds)"""
-    if c.get("dtype", "float64") not in INT_RANGES:
+    if c.get("dtype", "float64") == "float64":
         return
     Xtr, ytr, Xte, _ = _panel(c, cast="float64")
     if reg:
@@ -466,6 +466,10 @@ def _dtype_reference(c, o, make, Xte_unused=None, reg=False):
     _seed_global(c, 2)
     val, err = _call(lambda: (ref.predict(Xte) if reg else ref.predict_proba(Xte)))
     o["f64_out"], o["f64_out_err"] = (None if err else np.array(val)), err
+    if not reg:
+        _seed_global(c, 2)
+        _, err = _call(lambda: ref.predict(Xte))
+        o["f64_pred_err"] = err
 
 
 def _obs_clf(c):
@@ -1059,29 +1063,45 @@ def _expected_avg(o):
     return out / len(mats)
 
 
+VALUE_FIXED = ("tsf", "reg", "colens", "tsffeat")      # the statement fixes the VALUE: average of trees / members on exact features
+
+
+def _dtype_differs(c, o):
+    """informational: does the result on this panel differ from the same numbers stored as float64?"""
+    if "f64_fit_err" not in o or o.get("fit_err") or o["f64_fit_err"]:
+        return None
+    reg = c.get("algo") == "reg"
+    mine, mine_err = (o.get("pred"), o.get("pred_err")) if reg else (o.get("proba"), o.get("proba_err"))
+    if mine_err or o.get("f64_out_err") or mine is None or o.get("f64_out") is None:
+        return None
+    A, B = np.array(mine, dtype=float), np.array(o["f64_out"], dtype=float)
+    tol = 1e-9 if c["dtype"] in INT_RANGES else None
+    if tol is None:
+        return None
+    return A.shape != B.shape or not np.allclose(A, B, rtol=tol, atol=tol, equal_nan=True)
+
+
 def _check_vs_float64(c, o, site, fails):
-    """an integer panel must be treated as its numbers: same result as the same numbers stored as float64"""
+    """what C17 says about the panel's number type: a finite numeric panel of ANY dtype is accepted (fit / predict_proba /
+    predict do not raise where the same numbers stored as float64 are accepted); the well-formedness clauses apply as usual.
+    Only where the statement fixes the VALUE (TSF / forest regressor / column ensemble) must the result equal that of the
+    float64 copy; for the black-box classifiers a difference is counted in the evidence, not reported."""
     if "f64_fit_err" not in o:
         return
-    reg = c.get("algo") == "reg"
-    key = site + ":differs-from-float64-panel" + (":narrow-int" if c["dtype"] != "int64" else "")
-    if bool(o.get("fit_err")) != bool(o["f64_fit_err"]):
-        fails.append((key, "%s panel: fit %s; same numbers as float64: fit %s" % (c["dtype"], o.get("fit_err") or "ok", o["f64_fit_err"] or "ok")))
-        return
-    if o.get("fit_err") or o.get("member_raised"):
-        return
-    if not reg and _lab_list(o["classes"]) != _lab_list(o["f64_classes"]):
-        fails.append((key, "classes_ %r vs %r" % (o["classes"], o["f64_classes"])))
-        return
-    mine, mine_err = (o.get("pred"), o.get("pred_err")) if reg else (o.get("proba"), o.get("proba_err"))
-    if bool(mine_err) != bool(o["f64_out_err"]):
-        fails.append((key, "%s panel: %s; float64: %s" % (c["dtype"], mine_err or "ok", o["f64_out_err"] or "ok")))
-        return
-    if mine_err:
-        return
-    A, B = np.array(mine, dtype=float), np.array(o["f64_out"], dtype=float)
-    if A.shape != B.shape or not np.allclose(A, B, rtol=1e-9, atol=1e-9, equal_nan=True):
-        fails.append((key, "%s panel %r, the same numbers as float64 %r" % (c["dtype"], A.reshape(-1)[:6].tolist(), B.reshape(-1)[:6].tolist())))
+    dt = c["dtype"]
+    for mine, ref, what in ((o.get("fit_err"), o["f64_fit_err"], "fit"),
+                            (None if o.get("fit_err") else (o.get("pred_err") if c.get("algo") == "reg" else o.get("proba_err")),
+                             o.get("f64_out_err"), "predict" if c.get("algo") == "reg" else "predict_proba"),
+                            (None if (o.get("fit_err") or c.get("algo") == "reg" or o.get("proba_err")) else o.get("pred_err"),
+                             o.get("f64_pred_err"), "predict")):
+        if mine and not ref and not (what != "fit" and o["f64_fit_err"]):
+            fails.append((site + ":valid-panel-rejected:" + dt, "%s raised %s on a finite %s panel; the same numbers stored as float64 are accepted" % (what, mine, dt)))
+            return
+    if site in VALUE_FIXED and dt in INT_RANGES and _dtype_differs(c, o):
+        reg = c.get("algo") == "reg"
+        A = np.array(o["pred"] if reg else o["proba"], dtype=float); B = np.array(o["f64_out"], dtype=float)
+        fails.append((site + ":differs-from-float64-panel" + (":narrow-int" if dt != "int64" else ""),
+                      "%s panel %r, the same numbers as float64 %r" % (dt, A.reshape(-1)[:6].tolist(), B.reshape(-1)[:6].tolist())))
 
 
 def _rk(site):
@@ -1267,6 +1287,9 @@ def features(c, out):
             f.append("contiguous" if s == list(range(s[0], s[0] + len(s))) and s[0] == 0 else "non-contiguous")
     if c.get("dtype"):
         f.append("panel-dtype=" + c["dtype"])
+        d = _dtype_differs(c, o)
+        if d is not None:
+            f.append("vs-float64-copy=" + ("differs" if d else "same") + ":" + c.get("algo", c["kind"]))
     if c.get("xform"):
         f.append("panel-form=" + c["xform"])
     if c.get("pred_order"):
